@@ -84,9 +84,12 @@ def run_programs(name, progs, scope, known, *, opts=None, kf_crosstalk="KF-K7-cr
                     continue
                 o["status"] = "mismatch"
             if o["status"] == "crosstalk":
-                if kf_crosstalk in known:
+                wl = (known.get(kf_crosstalk) or {}).get("witnesses") if kf_crosstalk in known else None
+                if kf_crosstalk in known and (wl is None or f"{pid}:{o['name']}" in wl):
                     br.known_hits.append({"id": kf_crosstalk, "what": f"{pid}:{o['name']}"})
                     continue
+                o["detail"] = ("wire-isolation failure (differs from the source value, equal under ideal isolation) in a program "
+                               "that is NOT one of the recorded witnesses of KF-K7-crosstalk; " + o["detail"])
                 o["status"] = "mismatch"
             if o["status"] == "undecided":
                 br.undecided.append(f"{pid}:{o['name']}: {o['detail']}")
